@@ -36,7 +36,9 @@ func genC05(t *rapid.T) Scenario {
 		x := rapid.IntRange(0, 1).Draw(t, "cx")
 		sc.Ops = []HubOp{{K: "register", X: 0, Y: 1}, {K: "register", X: 1, Y: 0}, {K: "appear", X: 0, Y: 1}, {K: "appear", X: 1, Y: 0, WaitMs: 1300},
 			{K: "disconnect", X: x, Y: 1 - x, WaitMs: rapid.SampledFrom([]int{0, 20, 150}).Draw(t, "cw")},
-			{K: rapid.SampledFrom([]string{"cut", "freezeOld"}).Draw(t, "closs"), X: rapid.SampledFrom([]int{x, 1 - x}).Draw(t, "cdir"), Y: 0, WaitMs: 1500}}
+			// (a cut, not a black hole: a hub that keeps a silently dead connection only notices after its 60 s pong wait,
+			// which this run does not wait for)
+			{K: "cut", X: rapid.SampledFrom([]int{x, 1 - x}).Draw(t, "cdir"), Y: 0, WaitMs: 1500}}
 		sc.Ops[5].Y = 1 - sc.Ops[5].X
 		return sc
 	}
